@@ -41,11 +41,16 @@ def setup_repo_imports():
         if p in sys.path:
             sys.path.remove(p)
         sys.path.insert(0, p)
+    root = os.path.realpath(REPO) + os.sep
     for name in list(sys.modules):
         if name.split('.')[0] in ('recognizers_text', 'recognizers_number', 'recognizers_number_with_unit',
                                   'recognizers_date_time', 'recognizers_sequence', 'recognizers_choice',
                                   'datatypes_timex_expression', 'recognizers_suite'):
-            del sys.modules[name]
+            f = os.path.realpath(getattr(sys.modules[name], '__file__', '') or '')
+            if not f.startswith(root):   # only evict copies that did not come from the working tree (idempotent)
+                del sys.modules[name]
+    import warnings
+    warnings.filterwarnings('ignore', category=SyntaxWarning)
 
 
 def child_env():
